@@ -29,6 +29,11 @@ def check(ck):
         _global_state_census(ck, repo)
         from .c16 import no_other_cache
         no_other_cache(ck, repo)
+        # what user code of one engine (error coercers, schema directives) is handed must be its own: the error record is a fresh
+        # dict and its `extensions` a copy - validation rule instances, and the extensions dict they put on every error, are
+        # shared by all engines of the process
+        from .c18 import error_record_shape
+        error_record_shape(ck, repo)
 
 
 def _registry_access(ck, repo):
